@@ -1,0 +1,67 @@
+//go:build verif
+
+// Contracts for rate_limiter.go, checked by /verif/govc (comment-only file).
+package absnfs
+
+// Ghost history per token bucket: number of admitted requests and creation time.
+//@ ghost tbAdmitted [1]real
+//@ ghost tbT0 [1]real
+
+// Representation invariant of a token bucket (reals; A-FLOAT).  burst == maxTokens.
+//@ specdef tbInv(tb *TokenBucket) bool = tb != nil && tb.refillRate >= 0.0 && tb.maxTokens >= 0.0 && tb.tokens >= 0.0 && tb.tokens <= tb.maxTokens && tbT0[tb] <= tsec(tb.lastRefill) && tsec(tb.lastRefill) <= clock && tbAdmitted[tb] >= 0.0 && tbAdmitted[tb] + tb.tokens <= tb.maxTokens + tb.refillRate * (tsec(tb.lastRefill) - tbT0[tb])
+
+// what the bucket holds after refilling at time now
+//@ specdef refill(tokens real, maxT real, rate real, last real, now real) real = min(maxT, tokens + (now - last) * rate)
+//@ specdef tbRefilled(tb *TokenBucket, now real) real = refill(tb.tokens, tb.maxTokens, tb.refillRate, tsec(tb.lastRefill), now)
+
+//@ func NewTokenBucket
+//@ prop C18
+//@ requires rate >= 0.0 && burst >= 0
+//@ modifies clock, tbAdmitted, tbT0
+//@ atreturn set tbAdmitted[result] = 0
+//@ atreturn set tbT0[result] = tsec(result.lastRefill)
+//@ ensures [fresh] fresh(result) && result != nil
+//@ ensures [inv] tbInv(result)
+//@ ensures [fields] result.tokens == real(burst) && result.maxTokens == real(burst) && result.refillRate == rate
+//@ ensures [zero-admitted] tbAdmitted[result] == 0.0
+//@ ensures [clock] clock >= old(clock)
+//@ ensures [others] forall(o, *TokenBucket, o != result ==> tbAdmitted[o] == old(tbAdmitted[o]) && tbT0[o] == old(tbT0[o]))
+
+//@ func TokenBucket.Allow
+//@ prop C18
+//@ requires tbInv(tb) && held(tb.mu) == 0
+//@ modifies tb.tokens, tb.lastRefill, clock, tbAdmitted, locks
+//@ atreturn set tbAdmitted[tb] = tbAdmitted[tb] + ite(result, 1.0, 0.0)
+//@ ensures [inv] tbInv(tb)
+//@ ensures [decision] result <==> refill(old(tb.tokens), old(tb.maxTokens), old(tb.refillRate), old(tsec(tb.lastRefill)), clock) >= 1.0   // clock: the reading taken inside the call
+//@ ensures [count] tbAdmitted[tb] == old(tbAdmitted[tb]) + ite(result, 1.0, 0.0)
+//@ ensures [state] tb.tokens == refill(old(tb.tokens), old(tb.maxTokens), old(tb.refillRate), old(tsec(tb.lastRefill)), clock) - ite(result, 1.0, 0.0) && tsec(tb.lastRefill) == clock && clock >= old(clock)
+//@ ensures [others] forall(o, *TokenBucket, o != tb ==> tbAdmitted[o] == old(tbAdmitted[o])) && tbT0 == old(tbT0)
+//@ ensures [bound] tbAdmitted[tb] <= tb.maxTokens + tb.refillRate * (clock - tbT0[tb])
+//@ ensures [unlocked] held(tb.mu) == 0
+
+//@ func TokenBucket.AllowN
+//@ prop C18
+//@ requires tbInv(tb) && held(tb.mu) == 0 && n >= 0
+//@ modifies tb.tokens, tb.lastRefill, clock, tbAdmitted, locks
+//@ atreturn set tbAdmitted[tb] = tbAdmitted[tb] + ite(result, real(n), 0.0)
+//@ ensures [inv] tbInv(tb)
+//@ ensures [decision] result <==> refill(old(tb.tokens), old(tb.maxTokens), old(tb.refillRate), old(tsec(tb.lastRefill)), clock) >= real(n)
+//@ ensures [bound] tbAdmitted[tb] <= tb.maxTokens + tb.refillRate * (clock - tbT0[tb])
+//@ ensures [unlocked] held(tb.mu) == 0
+
+//@ func TokenBucket.Tokens
+//@ prop C18
+//@ requires tbInv(tb) && held(tb.mu) == 0
+//@ modifies clock, locks
+//@ ensures [value] result == tbRefilled(tb, clock) && clock >= old(clock)
+//@ ensures [inv] tbInv(tb)
+//@ ensures [unlocked] held(tb.mu) == 0
+
+// The property's bound, as a lemma over the invariant alone: any bucket satisfying tbInv has admitted
+// at most burst + rate * elapsed since its creation, at every later clock reading.
+//@ lemma tb_bound
+//@ prop C18
+//@ var admitted real, tokens real, maxT real, rate real, last real, t0 real, now real
+//@ hyp rate >= 0.0 && maxT >= 0.0 && tokens >= 0.0 && tokens <= maxT && t0 <= last && last <= now && admitted + tokens <= maxT + rate * (last - t0)
+//@ concl [bound] admitted <= maxT + rate * (now - t0)
